@@ -1,4 +1,5 @@
 """C06 — reader API never panics or aborts, whatever the input (see panicfree.py for the engine)."""
+import re
 import panicfree
 from facts import short
 from mir import body_of, callee_path, op_place, op_const, place_key, strip_generics
@@ -301,6 +302,181 @@ def sc_helper_index(name, need_present=False):
     return f
 
 
+def sc_guarded_sum(eng, fid, fn, it, ob):
+    """`a.checked_add(b).expect(..)` cannot fire when the call is reached only through the edge of a dominating comparison
+    that established b <= g - a (the difference computed in the same unsigned type), with a and b unchanged in between:
+    then a + b <= g.  Re-derived from the MIR on every run (operand identity through copies, not names)."""
+    body = it.body
+    B = ob["block"]
+    t = body.term(B)
+
+    def root(op):
+        pl = op_place(op)
+        for _ in range(6):
+            if pl is None or pl["p"]:
+                return pl
+            sd = body.single_def(pl["l"])
+            if body.local_name(pl["l"]) or sd is None or sd[2] != "assign" or sd[3]["k"] not in ("use", "cast"):
+                return pl
+            pl = op_place(sd[3]["a"])
+        return pl
+    opt = op_place(t["args"][0]) if t.get("args") else None
+    sd = body.single_def(opt["l"]) if opt is not None and not opt["p"] else None
+    if sd is None or sd[2] != "call" or not (sd[3]["callee"].get("path") or "").endswith("checked_add") or len(sd[3]["args"]) != 2:
+        return False, "the unwrapped value is not the result of a checked_add"
+    A = sd[0]
+    a, b = sd[3]["args"]
+    ra, cb = root(a), body.canon_op(b)
+    if ra is None or ra["p"]:
+        return False, "first addend is not a plain local"
+    for S in sorted(body.reach):
+        ts = body.term(S)
+        if ts["k"] != "switch" or S == A or not body.dominates(S, A):
+            continue
+        dl = op_place(ts["discr"])
+        d = body.single_def(dl["l"]) if dl is not None and not dl["p"] else None
+        if d is None or d[2] != "assign" or d[3]["k"] != "bin" or d[3].get("op") not in ("Gt", "Le", "Lt", "Ge"):
+            continue
+        op = d[3]["op"]
+        x, y = d[3]["a"], d[3]["b"]
+        # normalise to  small <= big  holding on edge `hold`
+        if op in ("Gt", "Le"):        # x > y  /  x <= y
+            small, big, hold = x, y, (0 if op == "Gt" else 1)
+        else:                         # x < y  /  x >= y
+            small, big, hold = y, x, (0 if op == "Lt" else 1)
+        if body.canon_op(small) != cb:
+            continue
+        rb = root(big)
+        # big = (g - a).0 of a checked subtraction, or a plain Sub
+        sdb = body.single_def(rb["l"]) if rb is not None else None
+        if rb is not None and rb["p"] and sdb and sdb[2] == "assign" and sdb[3]["k"] in ("checked", "bin") and sdb[3].get("op") in ("SubWithOverflow", "Sub"):
+            sub = sdb[3]
+        elif rb is not None and not rb["p"] and sdb and sdb[2] == "assign" and sdb[3]["k"] in ("checked", "bin") and sdb[3].get("op") in ("SubWithOverflow", "Sub", "SubUnchecked"):
+            sub = sdb[3]
+        elif rb is not None and not rb["p"] and sdb and sdb[2] == "assign" and sdb[3]["k"] == "use" and op_place(sdb[3]["a"]) is not None:
+            inner = op_place(sdb[3]["a"])
+            sdi = body.single_def(inner["l"])
+            sub = sdi[3] if sdi and sdi[2] == "assign" and sdi[3]["k"] in ("checked", "bin") and sdi[3].get("op") in ("SubWithOverflow", "Sub") else None
+        else:
+            sub = None
+        if sub is None:
+            continue
+        rs = root(sub["b"])
+        if rs is None or rs["p"] or rs["l"] != ra["l"]:
+            continue
+        tgt_hold = None
+        tgt_other = []
+        for v, tg in ts["targets"]:
+            if v == hold:
+                tgt_hold = tg
+            else:
+                tgt_other.append(tg)
+        if tgt_hold is None:
+            tgt_hold = ts["otherwise"]
+        else:
+            tgt_other.append(ts["otherwise"])
+        if not (tgt_hold == A or body.can_reach(tgt_hold, A)) or any(o == A or body.can_reach(o, A, avoid=[S]) for o in tgt_other if o != tgt_hold):
+            continue
+        between = {X for X in body.reach if (X == tgt_hold or body.can_reach(tgt_hold, X, avoid=[S])) and (X == A or body.can_reach(X, A, avoid=[S]))}
+        redefs = [X for X, i, k, p_ in body.defs().get(ra["l"], []) if X in between and X != A]
+        if redefs:
+            continue
+        return True, "reached only where %s <= %s held (bb%d), addend unchanged since" % (body.op_str(small), body.op_str(big), S)
+    return False, "no dominating comparison establishes b <= g - a for this sum"
+
+
+def _index_origin(body, op):
+    """(call terminator, projections) when the operand is a component of the value a local call returned, followed through
+    copies and field / variant projections only (`let (i, _) = helper(..)?` style bindings included)"""
+    pl = op_place(op)
+    projs = []
+    seen = set()
+    for _ in range(16):
+        if pl is None:
+            return None, None
+        projs = [p for p in pl["p"] if p != "deref"] + projs
+        l = pl["l"]
+        if l in seen:
+            return None, None
+        seen.add(l)
+        ds = body.defs().get(l, [])
+        if len(ds) != 1:
+            return None, None
+        b_, i_, kind, payload = ds[0]
+        if kind == "call":
+            cp = payload["callee"].get("path") or ""
+            if cp.endswith("Try::branch") and payload["args"]:
+                pl = op_place(payload["args"][0])
+                continue
+            return payload, projs
+        if kind != "assign" or payload["k"] not in ("use", "cast"):
+            return None, None
+        pl = op_place(payload["a"])
+    return None, None
+
+
+def sc_index_from_helper(need_present=False):
+    """`table.get(i).unwrap()` / `table[i]` where i is the index component returned by one of the lookup helpers and `table`
+    is the collection that helper searched: the helper's postcondition (lookup_post) is re-derived on every run, and the
+    caller side (which call produced i, which table it indexes) is read off the MIR instead of from the spelling."""
+    def f(eng, fid, fn, it, ob):
+        import lookup_post
+        body = it.body
+        t = body.term(ob["block"])
+        if ob["what"].startswith("unwrap_opt"):
+            opt = op_place(t["args"][0]) if t.get("args") else None
+            sd = body.single_def(opt["l"]) if opt is not None and not opt["p"] else None
+            if sd is None or sd[2] != "call" or len(sd[3]["args"]) != 2 or (sd[3]["callee"].get("path") or "").split("::")[-1] not in ("get", "get_mut"):
+                return False, "the unwrapped value is not a slice::get result"
+            base, idx = sd[3]["args"]
+        else:
+            if len(t.get("args", [])) != 2:
+                return False, "not an indexing call"
+            base, idx = t["args"]
+        call, projs = _index_origin(body, idx)
+        if call is None:
+            return False, "the index is not a component of a helper's result"
+        hname = (callee_path(call["callee"]) or "").split("::")[-1]
+        if hname not in lookup_post.HELPERS:
+            return False, "the index comes from %s, which has no derived postcondition" % hname
+        comp, want = lookup_post.HELPERS[hname]
+        flds = tuple("." + p["f"] for p in projs if isinstance(p, dict) and "f" in p)
+        want_flds = tuple(c for c in comp if c.startswith(".") )
+        if flds != want_flds:
+            return False, "the index is component %s of %s's result, the position is component %s" % (flds, hname, want_flds)
+        r = lookup_post.check(eng.fx, hname)
+        if not r["ok"]:
+            return False, "postcondition of Mp4Track::%s no longer derivable: %s" % (hname, r["why"])
+        if need_present and not r["present"]:
+            return False, "Mp4Track::%s can return the index of a fragment whose trun was not tested to be present" % hname
+        # the indexed table is the one the helper searched
+        cb = body.canon_op(base)
+        while True:
+            m = re.match(r"^(?:[\w:<>&\[\], ]*?)(?:deref|as_slice|as_ref|borrow)\((.*)\)$", cb)
+            if not m:
+                break
+            cb = m.group(1)
+        suffix = "".join(want[1])
+        hfn = r["fn"]
+        targ = None
+        for i_, a_ in enumerate(call["args"]):
+            ins_ = (hfn.get("inputs_s") or []) if hfn else []
+            ty = ins_[i_] if i_ < len(ins_) else ""
+            if want[0] in ty:
+                targ = body.canon_op(a_)
+        if targ is not None:
+            ok = cb == targ + want[1][-1] or cb == targ + suffix
+        else:
+            ok = cb.startswith("$1.") and cb.endswith(suffix) and body.canon_op(call["args"][0]) in ("$1", "&$1") if want[0] != "Mp4Track" else cb in ("$1" + suffix,)
+        if want[0] == "Mp4Track":
+            # trafs and the vector pushed in lock step with it
+            ok = cb in ("$1.trafs", "$1.moof_offsets")
+        if not ok:
+            return False, "the index returned for %s is applied to %s" % (targ or ("self" + suffix), cb)
+        return True, "index = position returned by Mp4Track::%s (%s), applied to the table it searched" % (hname, r["why"])
+    return f
+
+
 def sc_both(a, b):
     def f(eng, fid, fn, it, ob):
         ok1, w1 = a(eng, fid, fn, it, ob)
@@ -340,17 +516,16 @@ ACCEPTED = [
     # ---- track.rs cross-function invariants (sample-table lookups)
     {"match": K("Mp4Track::find_traf_idx_and_sample_idx|Overflow(Sub)|global_idx, offset"), "side": sc_trusted("loop invariant offset <= global_idx"),
      "reason": "loop invariant offset <= global_idx: offset only grows by sample_count on the path where sample_count <= global_idx - offset"},
-    {"match": K("Mp4Track::find_traf_idx_and_sample_idx|unwrap_opt:expect|num::checked_add(offset, sample_count)"), "side": sc_trusted("loop invariant"),
+    {"match": K("Mp4Track::find_traf_idx_and_sample_idx|unwrap_opt:expect|num::checked_add("), "side": sc_guarded_sum,
      "reason": "checked_add is reached only when sample_count <= global_idx - offset, so offset + sample_count <= global_idx <= u32::MAX: the expect cannot fire"},
-    {"match": K("Mp4Track::sample_offset|unwrap_opt:unwrap|slice::get(Deref::deref(stsc.entries), stsc_index)"), "side": sc_helper_index("stsc_index"),
-     "reason": "stsc_index returns i-1 for an enumerate index i >= 1 or len-1 after the non-empty check: always < entries.len()"},
-    {"match": K("Mp4Track::sample_rendering_offset|unwrap_opt:unwrap|slice::get(Deref::deref(ctts.entries), ctts_index)"), "side": sc_helper_index("ctts_index"),
-     "reason": "ctts_index returns an enumerate index of ctts.entries"},
+    {"match": lambda fid, fn, ob, key: key.startswith("Mp4Track::") and "|unwrap_opt:unwrap|slice::get(" in key and re.search(r"(stsc|ctts)\.entries\), ", key) is not None,
+     "side": sc_index_from_helper(),
+     "reason": "the index is the position returned by stsc_index / ctts_index for the very table it is applied to (i-1 for an enumerate index i >= 1, len-1 after the non-empty check, or an enumerate index)"},
     {"match": K("Mp4Track::ctts_index|unwrap_opt:unwrap|Option::as_ref(self.trak.mdia.minf.stbl.ctts)"), "side": sc_trusted("only caller tests Some"),
      "reason": "private helper, its only caller runs it inside `if let Some(ctts) = stbl.ctts`"},
-    {"match": lambda fid, fn, ob, key: "|index:index|self.trafs, traf_idx" in key, "side": sc_helper_index("find_traf_idx_and_sample_idx"),
-     "reason": "traf_idx comes from find_traf_idx_and_sample_idx, which iterates 0..self.trafs.len()"},
-    {"match": K("Mp4Track::sample_offset|index:index|self.moof_offsets, traf_idx"), "side": sc_both(sc_lockstep_pushes, sc_helper_index("find_traf_idx_and_sample_idx")),
+    {"match": lambda fid, fn, ob, key: key.startswith("Mp4Track::") and "|index:index|self.trafs, " in key, "side": sc_index_from_helper(),
+     "reason": "the index is the fragment position returned by find_traf_idx_and_sample_idx, which walks self.trafs"},
+    {"match": lambda fid, fn, ob, key: key.startswith("Mp4Track::") and "|index:index|self.moof_offsets, " in key, "side": sc_both(sc_lockstep_pushes, sc_index_from_helper()),
      "reason": "moof_offsets has the same length as trafs"},
     {"match": K("Mp4Track::sample_size|unwrap_opt:unwrap|Option::as_ref(Index::index(self.trafs, traf_idx).trun)"), "side": sc_helper_index("find_traf_idx_and_sample_idx", need_present=True),
      "reason": "find_traf_idx_and_sample_idx only returns indices of fragments whose trun is Some"},
